@@ -1961,9 +1961,12 @@ class _Duration(Duration):
         cls, delta: timedelta, *, _1_microsecond: timedelta = timedelta(microseconds=1)
     ) -> "_Duration":
         total_ms = delta // _1_microsecond
-        seconds = int(total_ms / 1e6)
-        nanos = int((total_ms % 1e6) * 1e3)
-        return cls(seconds, nanos)
+        # Integer arithmetic: seconds and nanos must carry the same sign and
+        # large values must not lose precision.
+        seconds, micros = divmod(abs(total_ms), 10**6)
+        if total_ms < 0:
+            seconds, micros = -seconds, -micros
+        return cls(seconds, micros * 1000)
 
     def to_timedelta(self) -> timedelta:
         return timedelta(seconds=self.seconds, microseconds=self.nanos / 1e3)
